@@ -30,6 +30,9 @@ type Op struct {
 type Case struct {
 	Flows []aggh.FlowDef `json:"flows"`
 	Ops   []Op           `json:"ops"`
+	// ElemOrder: the order in which the AggregateElements configuration lists its elements
+	// (aggh.ElementsVariant)
+	ElemOrder int `json:"elem_order,omitempty"`
 }
 
 var rec *ev.Recorder
@@ -54,7 +57,7 @@ func runCase(c Case, st *Stats) *ev.Failure {
 	if st == nil {
 		st = &Stats{}
 	}
-	ap := aggh.New(150*time.Minute, 1000000*time.Hour, nil, 1)
+	ap := aggh.NewWith(150*time.Minute, 1000000*time.Hour, nil, 1, aggh.ElementsVariant(c.ElemOrder))
 	model := map[int]*aggh.FlowState{}
 	ext := map[int]bool{} // flows whose external fields the user has filled
 	keyToFlow := map[intermediate.FlowKey]int{}
@@ -261,7 +264,7 @@ type stream struct {
 }
 
 func genCase(t *rapid.T) Case {
-	c := Case{Flows: genFlows(t)}
+	c := Case{Flows: genFlows(t), ElemOrder: rapid.SampledFrom([]int{0, 0, 1, 2, 3}).Draw(t, "elem_order")}
 	streams := map[string]*stream{}
 	used := map[int]map[uint32]bool{}
 	n := rapid.IntRange(2, 60).Draw(t, "n")
